@@ -732,3 +732,127 @@ func VerifC12Zero() {
 	}
 	verifrt.Cover("ok")
 }
+
+// VerifC19Limits: the limits announced by PATHCONF/FSINFO against the guards of the procedures.
+func VerifC19Limits() {
+	w := vWorld("d")
+	w.stepHooks()
+	root := fh.MkRootFh3()
+	pc := w.nfs.NFSPROC3_PATHCONF(nfstypes.PATHCONF3args{Object: root})
+	fi := w.nfs.NFSPROC3_FSINFO(nfstypes.FSINFO3args{Fsroot: root})
+	verifrt.Assert(pc.Status == nfstypes.NFS3_OK && fi.Status == nfstypes.NFS3_OK, "pathconf-fsinfo-ok")
+	nameMax := uint64(pc.Resok.Name_max)
+	wtmax := uint64(fi.Resok.Wtmax)
+	maxfs := uint64(fi.Resok.Maxfilesize)
+	verifrt.Assert(pc.Resok.No_trunc, "no-trunc-announced")
+	switch verifrt.Choose("what", 0, 1, 2, 3) {
+	case 0:
+		// names: every length up to name_max can be created (given room and a free inode), longer ones
+		// are refused without effect
+		dh, dx := w.vLive("dir", nfstypes.NF3DIR)
+		w.boundInode(dx, true)
+		L := verifrt.Choose("len", nameMax, nameMax-1, nameMax+1, 255, 1)
+		name := nfstypes.Filename3(verifrt.Name("n", L, 1))
+		verifrt.Assume(name != "." && name != "..")
+		verifrt.Mark(vMarkOpBegin)
+		var st nfstypes.Nfsstat3
+		switch verifrt.Choose("proc", pCREATE, pMKDIR, pSYMLINK) {
+		case pCREATE:
+			st = w.nfs.NFSPROC3_CREATE(nfstypes.CREATE3args{Where: nfstypes.Diropargs3{Dir: dh, Name: name}}).Status
+		case pMKDIR:
+			st = w.nfs.NFSPROC3_MKDIR(nfstypes.MKDIR3args{Where: nfstypes.Diropargs3{Dir: dh, Name: name}}).Status
+		case pSYMLINK:
+			st = w.nfs.NFSPROC3_SYMLINK(nfstypes.SYMLINK3args{Where: nfstypes.Diropargs3{Dir: dh, Name: name}, Symlink: nfstypes.Symlinkdata3{Symlink_data: "t"}}).Status
+		}
+		m := vMonitor()
+		nofail := true
+		for _, ev := range verifrt.Events() {
+			if ev.Kind == verifrt.EvAlloc && ev.A == 0 {
+				nofail = false
+			}
+		}
+		if st == nfstypes.NFS3ERR_EXIST {
+			verifrt.Cover("dbg-exist")
+		}
+		if st == nfstypes.NFS3ERR_NOSPC {
+			verifrt.Cover("dbg-nospc")
+		}
+		if st == nfstypes.NFS3ERR_IO {
+			verifrt.Cover("dbg-io")
+		}
+		if L <= nameMax {
+			// the only admissible refusals: the name exists already, or the disk / inode table is full
+			verifrt.Assert(st == nfstypes.NFS3_OK || st == nfstypes.NFS3ERR_EXIST || (!nofail && st == nfstypes.NFS3ERR_NOSPC), "name-up-to-name_max-accepted")
+			if st == nfstypes.NFS3_OK {
+				verifrt.Assert(m.appends == 1 && m.durable, "mon:created-durably")
+				verifrt.Cover("name-ok")
+			}
+		} else {
+			verifrt.Assert(st != nfstypes.NFS3_OK && m.appends == 0, "name-beyond-name_max-refused-without-effect")
+			verifrt.Cover("name-refused")
+		}
+	case 1:
+		// sizes: SETATTR up to maxfilesize accepted and the state can be read back; beyond refused
+		h, x := w.vLive("f", nfstypes.NF3REG)
+		ip := w.boundInode(x, true)
+		verifrt.Assume(ip.Size <= 4096 && ip.ShrinkSize <= 1)
+		ns := verifrt.Choose("size", maxfs, maxfs-1, maxfs+1, 1<<63, ^uint64(0), maxfs+4096)
+		var a nfstypes.Sattr3
+		a.Size.Set_it = true
+		a.Size.Size = nfstypes.Size3(ns)
+		verifrt.Mark(vMarkOpBegin)
+		st := w.nfs.NFSPROC3_SETATTR(nfstypes.SETATTR3args{Object: h, New_attributes: a}).Status
+		m := vMonitor()
+		if ns <= maxfs {
+			verifrt.Assert(st == nfstypes.NFS3_OK, "size-up-to-maxfilesize-accepted")
+			g := w.nfs.NFSPROC3_GETATTR(nfstypes.GETATTR3args{Object: h})
+			verifrt.Assert(g.Status == nfstypes.NFS3_OK && uint64(g.Resok.Obj_attributes.Size) == ns, "size-reads-back")
+			verifrt.Cover("size-ok")
+		} else {
+			verifrt.Assert(st != nfstypes.NFS3_OK && m.appends == 0, "size-beyond-maxfilesize-refused-without-effect")
+			g := w.nfs.NFSPROC3_GETATTR(nfstypes.GETATTR3args{Object: h})
+			verifrt.Assert(g.Status == nfstypes.NFS3_OK && uint64(g.Resok.Obj_attributes.Size) == ip.Size, "refused-size-leaves-size-unchanged")
+			verifrt.Cover("size-refused")
+		}
+	case 2:
+		// writes around maxfilesize
+		h, x := w.vLive("f", nfstypes.NF3REG)
+		ip := w.boundInode(x, true)
+		verifrt.Assume(ip.Size <= 4096 && ip.ShrinkSize <= 1)
+		off := verifrt.Choose("off", maxfs-1, maxfs, maxfs-2, ^uint64(0))
+		n := verifrt.Choose("n", 1, 2)
+		verifrt.Mark(vMarkOpBegin)
+		r := w.nfs.NFSPROC3_WRITE(nfstypes.WRITE3args{File: h, Offset: nfstypes.Offset3(off), Count: nfstypes.Count3(n), Stable: nfstypes.FILE_SYNC, Data: verifrt.Bytes("data", n)})
+		m := vMonitor()
+		nofail := true
+		for _, ev := range verifrt.Events() {
+			if ev.Kind == verifrt.EvAlloc && ev.A == 0 {
+				nofail = false
+			}
+		}
+		if off+n >= off && off+n <= maxfs {
+			verifrt.Assert(r.Status == nfstypes.NFS3_OK || !nofail, "write-up-to-maxfilesize-accepted")
+			if r.Status == nfstypes.NFS3_OK {
+				verifrt.Assert(uint64(r.Resok.Count) == n, "write-not-truncated")
+				verifrt.Cover("write-ok")
+			}
+		} else {
+			verifrt.Assert(r.Status != nfstypes.NFS3_OK && m.appends == 0, "write-beyond-maxfilesize-refused-without-effect")
+			verifrt.Cover("write-refused")
+		}
+	case 3:
+		// the transfer-size guard: a write of the announced wtmax passes the guard (it may still not
+		// fit the journal: K03), one byte more is refused without effect
+		h, x := w.vLive("f", nfstypes.NF3REG)
+		w.boundInode(x, true)
+		over := verifrt.Choose("over", 1, 0)
+		cnt := wtmax + over
+		verifrt.Mark(vMarkOpBegin)
+		// no data supplied: the count guard is what is examined here (count > len(data) is refused later)
+		r := w.nfs.NFSPROC3_WRITE(nfstypes.WRITE3args{File: h, Offset: 0, Count: nfstypes.Count3(cnt), Stable: nfstypes.FILE_SYNC, Data: nil})
+		m := vMonitor()
+		verifrt.Assert(r.Status != nfstypes.NFS3_OK && m.appends == 0, "oversized-or-dataless-write-refused-without-effect")
+		verifrt.Assert(wtmax <= 511*4096 && wtmax%4096 == 0, "wtmax-is-a-whole-number-of-blocks-within-the-journal")
+		verifrt.Cover("wtmax")
+	}
+}
